@@ -50,14 +50,14 @@ def style_catalogue():
       ("Times New Roman", sp.GenericFontFamilyType.proportionalSansSerif), ('A"B',), ("A'B",), ("A\\B",), ("A,B",), ("serif",),
       (sp.GenericFontFamilyType.monospace, sp.GenericFontFamilyType.sansSerif, sp.GenericFontFamilyType.monospaceSansSerif,
        sp.GenericFontFamilyType.monospaceSerif, sp.GenericFontFamilyType.proportionalSerif))
-  add("FontSize", L(2, U.em), L(80, U.pct), L(1, U.c), L(24, U.px), L(5, U.rh), L(3.5, U.rw))
+  add("FontSize", L(2, U.em), L(80, U.pct), L(1, U.c), L(24, U.px), L(5, U.rh), L(3.5, U.rw), L(0.00001, U.em))
   add("FontStyle", sp.FontStyleType.normal, sp.FontStyleType.italic, sp.FontStyleType.oblique)
   add("FontWeight", sp.FontWeightType.normal, sp.FontWeightType.bold)
-  add("LineHeight", sp.SpecialValues.normal, L(120, U.pct), L(1.5, U.em), L(30, U.px), L(1.2, U.c), L(6, U.rh))
+  add("LineHeight", sp.SpecialValues.normal, L(120, U.pct), L(1.5, U.em), L(30, U.px), L(1.2, U.c), L(6, U.rh), L(1234567.5, U.px))
   add("LinePadding", L(0.5, U.c), L(0, U.c), L(1, U.rh), L(1.5, U.rw))
   add("LuminanceGain", 1.5, 2, 0.25)
   add("MultiRowAlign", sp.MultiRowAlignType.start, sp.MultiRowAlignType.center, sp.MultiRowAlignType.end, sp.MultiRowAlignType.auto)
-  add("Opacity", 0.5, 1, 0, 0.333333333)
+  add("Opacity", 0.5, 1, 0, 0.333333333, Fraction(1, 3), 0.00001)
   add("Origin", sp.CoordinateType(x=L(10, U.pct), y=L(20, U.pct)), sp.CoordinateType(x=L(64, U.px), y=L(48, U.px)),
       sp.CoordinateType(x=L(3.2, U.c), y=L(1.5, U.c)), sp.CoordinateType(x=L(12.5, U.rw), y=L(0, U.rh)))
   add("Overflow", sp.OverflowType.visible, sp.OverflowType.hidden)
@@ -71,7 +71,7 @@ def style_catalogue():
   add("RubyReserve", sp.SpecialValues.none, sp.RubyReserveType(sp.RubyReserveType.Position.both, L(1, U.em)),
       sp.RubyReserveType(sp.RubyReserveType.Position.outside, None), sp.RubyReserveType(sp.RubyReserveType.Position.before, L(50, U.pct)),
       sp.RubyReserveType(sp.RubyReserveType.Position.after, L(12, U.px)))
-  add("Shear", 0.0, 16.67, -10.0, 100, 0)
+  add("Shear", 0.0, 16.67, -10.0, 100, 0, 0.00001)
   add("ShowBackground", sp.ShowBackgroundType.always, sp.ShowBackgroundType.whenActive)
   add("TextAlign", sp.TextAlignType.start, sp.TextAlignType.center, sp.TextAlignType.end)
   add("TextCombine", sp.TextCombineType.none, sp.TextCombineType.all)
@@ -417,6 +417,30 @@ def project(doc, D):
   return out
 
 
+def boundaries(doc):
+  """Every absolute time at which something of the document may change (a superset: no clipping), for choosing probe
+  times only.  (ISD.significant_times is not used: it misplaces animation steps, property C02.)"""
+  out = {Fraction(0)}
+
+  def walk(e, parent_begin):
+    b = parent_begin + (Fraction(e.get_begin()) if e.get_begin() is not None else 0)
+    out.add(b)
+    if e.get_end() is not None:
+      out.add(parent_begin + Fraction(e.get_end()))
+    for st in e.iter_animation_steps():
+      out.add(b + (Fraction(st.begin) if st.begin is not None else 0))
+      if st.end is not None:
+        out.add(b + Fraction(st.end))
+    for c in e:
+      walk(c, b)
+
+  for r in doc.iter_regions():
+    walk(r, Fraction(0))
+  if doc.get_body() is not None:
+    walk(doc.get_body(), Fraction(0))
+  return sorted(out)
+
+
 def snapshot_simple(doc, t):
   """Per region: the text leaves with the element kinds above them (C05 compares two documents at the same time)."""
   s = X.snapshot(doc, t)
@@ -473,7 +497,7 @@ def roundtrip(doc, cfg):
   else:
     unit = Fraction(1, 1000)
   try:
-    st = sorted(set(ISD.significant_times(doc)))
+    st = boundaries(doc)
     margin = 8 * unit
     pts = []
     exact = all((Fraction(v) / unit).denominator == 1 for v in all_times(doc))
